@@ -46,6 +46,20 @@ pub fn gen_params(rng: &mut Rng, seed: u64, base_ts: u64) -> ChainParams {
     }
 }
 
+/// like gen_params, but a fifth of the chains have an ILLEGAL difficulty history (DiffMode::Jump): mined and provable, yet the sampled end
+/// points fail the client's tau check, so the client asks again with the check switched off (RequireRecheck path). Only for workloads
+/// whose oracle does not presuppose a legal history (C01, C10, C11, C15 - not C05 / C12's bounded-progress clauses).
+pub fn gen_params_with_jumps(rng: &mut Rng, seed: u64, base_ts: u64) -> ChainParams {
+    let mut p = gen_params(rng, seed, base_ts);
+    if rng.chance(1, 5) {
+        p.diff_mode = DiffMode::Jump;
+        if p.epoch_len.1 > 12 {
+            p.epoch_len = (3, 9); // many epoch switches on short chains
+        }
+    }
+    p
+}
+
 pub fn gen_len(rng: &mut Rng) -> u64 {
     match rng.below(10) {
         0 => rng.range(2, 6),
